@@ -20,6 +20,10 @@ Definition isize_as_usize (i : Z) : nat :=
 Definition drain {X} (l : list X) (lo hi : nat) : res (list X) :=
   if (lo <=? hi) && (hi <=? length l) then Ok (firstn lo l ++ skipn hi l) else Panic Index.
 
+(* for j in lo..hi over isize: hi - lo iterations (none when hi <= lo), j = lo, lo+1, .. *)
+Definition for_z {S} (lo hi : Z) (body : Z -> S -> res S) (s : S) : res S :=
+  for_ 0 (Z.to_nat (hi - lo)) (fun k s => body (lo + Z.of_nat k)%Z s) s.
+
 (* Option::unwrap / Result::unwrap *)
 Definition unwrap_opt {X} (o : option X) : res X :=
   match o with Some x => Ok x | None => Panic Unwrap end.
